@@ -154,7 +154,7 @@ type c16Gen struct {
 }
 
 var c16OddTags = []string{`dials:"_"`, `dials:"-x"`, `dialsenv:""`, `dials:""`, `dials:"é"`, `dials:"9lives"`, `dials:"name,omitempty"`, `dials:"a=b"`, `dialsflag:"-bad"`, `dialsflag:"a=b"`,
-	`dialspflagshort:"ab"`, `dialspflag:""`, `dials:"with space"`, `dials:"__"`, `dialsenv:"lower case"`, `dials:"-"`, `dialsflag:"-"`, `dialspflag:"-"`, `dials:"A_B"`, `dialsalias:"old_name"`, `dialsenvalias:"OLD"`, `dialsflagalias:"old-flag"`}
+	`dialspflagshort:"ab"`, `dialspflagshort:"é"`, `dialspflagshort:"日"`, `dialsflag:"=a"`, `dials:"=level"`, `dialsflag:"="`, `dialsflag:"a="`, `dialspflag:""`, `dials:"with space"`, `dials:"__"`, `dialsenv:"lower case"`, `dials:"-"`, `dialsflag:"-"`, `dialspflag:"-"`, `dials:"A_B"`, `dialsalias:"old_name"`, `dialsenvalias:"OLD"`, `dialsflagalias:"old-flag"`}
 
 func (g *c16Gen) tagFor(i int, usedTags map[string]bool, embedded bool) string {
 	r := g.r
